@@ -134,6 +134,39 @@ a1:
 """),
 }
 
+def text_variants():
+    """Workbooks given as TEXT (used verbatim, never re-dumped): what the member-definition extraction has to cope with - comment
+    lines at every indentation, block scalars (literal / folded) whose content has lines starting with '#', blank lines,
+    members indented by 2 or 4, a word naming a section inside a description."""
+    out = {}
+    k = 0
+    for ind in (2, 4):
+        for style in ('|', '>', '|-'):
+            for hash_at in ('first', 'middle', 'none'):
+                for comment in ('col0', 'member', 'deep', 'none'):
+                    k += 1
+                    if (k * 7 + ind) % 3 and not (hash_at != 'none' and comment == 'none'):
+                        continue        # a third of the combinations + every one with '#' content and no real comment
+                    i1, i2, i3, i4 = ' ' * ind, ' ' * (2 * ind), ' ' * (3 * ind), ' ' * (4 * ind)
+                    body = ['echo one', 'echo two']
+                    if hash_at == 'first':
+                        body = ['#!/bin/bash'] + body
+                    elif hash_at == 'middle':
+                        body = ['echo one', '# not a YAML comment: part of the value', 'echo two']
+                    cm = {'col0': '# a comment\n', 'member': i1 + '# a comment\n', 'deep': i4 + '# a comment\n', 'none': ''}[comment]
+                    text = ("version: '2.0'\nname: wbt\ndescription: the workflows and actions of this book\n"
+                            "actions:\n" + i1 + "act1:\n" + i2 + "base: std.echo\n" + cm + i2 + "base-input:\n" + i3 + "output: " + style + "\n" +
+                            ''.join(i4 + b + '\n' for b in body) + i2 + "input: [s]\n\n"
+                            "workflows:\n" + i1 + "w1:\n" + i2 + "type: direct\n" + cm + i2 + "tasks:\n" + i3 + "t1:\n" + i4 + "action: std.echo\n" +
+                            i4 + "input:\n" + i4 + i1 + "output: " + style + "\n" + ''.join(i4 + i2 + b + '\n' for b in body) +
+                            i4 + "on-success: t2\n\n" + i3 + "t2:\n" + i4 + "action: std.noop\n" +
+                            i1 + "w2:\n" + i2 + "type: reverse\n" + i2 + "tasks:\n" + i3 + "a:\n" + i4 + "action: std.noop\n")
+                    out['wbtext_%d_%s_%s_%s' % (ind, {'|': 'lit', '>': 'fold', '|-': 'strip'}[style], hash_at, comment)] = ('workbook', text)
+    return out
+
+
+TEXT_BASES = text_variants()
+
 KINDS = ['delete', 'null', 'int', 'bool', 'str', 'list', 'dict', 'bad_yaql', 'bad_jinja', 'int_key', 'odd_key', 'dup_version',
          'add_version_float', 'add_version_other', 'add_name']
 
@@ -232,12 +265,14 @@ def _validate(args):
         except Exception:
             applied.append({'node': ni, 'kind': k})
     try:
-        mtext = yaml.safe_dump(doc, default_flow_style=False)
+        # (an unmutated document is validated as the text it was written as - comments, block scalars and all)
+        mtext = yaml.safe_dump(doc, default_flow_style=False) if muts else text
     except Exception:
         mtext = text
     fn = {'workflow': spec_parser.get_workflow_list_spec_from_yaml, 'workbook': spec_parser.get_workbook_spec_from_yaml,
           'action': spec_parser.get_action_list_spec_from_yaml}[kind_of_doc]
-    t0 = time.time()
+    # (CPU time of this worker, not wall-clock time: the budget must not depend on how loaded the machine is)
+    t0 = time.process_time()
     outcome = 'accepted'
     detail = ''
     spec = None
@@ -255,7 +290,7 @@ def _validate(args):
     except Exception as e:
         outcome = 'internal:' + type(e).__name__
         detail = str(e)[:200]
-    ms = int((time.time() - t0) * 1000)
+    ms = int((time.process_time() - t0) * 1000)
     if outcome == 'accepted' and spec is not None:
         try:
             d1 = spec.to_dict()
@@ -305,6 +340,13 @@ def _validate(args):
                     if not got or _canon(got[0].to_dict()) != _canon(wf_spec.to_dict()):
                         extracted = False
                         detail = 'extracted workflow %s differs' % wf_spec.get_name()
+                for a_spec in (spec.get_actions() or []):
+                    cut = spec_parser.get_action_definition(mtext, a_spec.get_name())
+                    again = spec_parser.get_action_list_spec_from_yaml("version: '2.0'\n" + cut, validate=False)
+                    got = [a for a in again.get_actions() if a.get_name() == a_spec.get_name()]
+                    if not got or _canon(got[0].to_dict()) != _canon(a_spec.to_dict()):
+                        extracted = False
+                        detail = 'extracted action %s differs' % a_spec.get_name()
             except Exception as e:
                 extracted = False
                 detail = 'extract: %r' % e
@@ -320,8 +362,9 @@ def run(tier):
     d = common.builddir('c14', clean=True)
     common.put_spec(d, *[os.path.join('dsl', f_) for f_ in ('DslValidation.tla', 'DslTrace.tla')])
     nodes = {b: len(nodes_of(yaml.safe_load(t))) for b, (k, t) in BASES.items()}
+    nodes.update({b: 0 for b in TEXT_BASES})
     consts = ('CONSTANTS\n Bases = {%s}\n NodesOf <- MC_NodesOf\n Kinds = {%s}\n'
-              % (', '.join('"%s"' % b for b in BASES), ', '.join('"%s"' % k for k in KINDS)))
+              % (', '.join('"%s"' % b for b in list(BASES) + list(TEXT_BASES)), ', '.join('"%s"' % k for k in KINDS)))
     with open(os.path.join(d, 'MC_Dsl.tla'), 'w') as fh:
         fh.write('---- MODULE MC_Dsl ----\nEXTENDS DslValidation\nMC_NodesOf == %s\n====\n'
                  % ' @@ '.join('("%s" :> %d)' % (b, n) for b, n in nodes.items()))
@@ -340,6 +383,8 @@ def run(tier):
         ndouble = 150 if tier == 'quick' else 4000
         for _ in range(ndouble):
             jobs.append((b, kd, text, [(rnd.randint(1, nodes[b]), rnd.choice(KINDS)), (rnd.randint(1, nodes[b]), rnd.choice(KINDS))], 'parser'))
+    for b, (kd, text) in TEXT_BASES.items():
+        jobs.append((b, kd, text, [], 'parser'))
     with mp.get_context('spawn').Pool(max(2, common.NCPU - 2), initializer=_winit, initargs=(common.REPO,)) as pool:
         asyncs = [pool.apply_async(_validate, (j,)) for j in jobs]
         recs = []
